@@ -503,14 +503,18 @@ class Ctx:
             self.add(term if b else z3.Not(term))
             return b
         self.stats.decisions += 1
+        # every solver-decided outcome is recorded (also forced ones) so that
+        # a replayed prefix lines up with the decide() calls one to one
         r_t = self.check(term)
         if r_t == 'unsat':
+            self.trace.append(False)
             self.add(z3.Not(term))
             return False
         r_f = self.check(z3.Not(term))
         if r_f == 'unsat':
             if r_t == 'unknown':
                 self.stats.unknown_feas += 1
+            self.trace.append(True)
             self.add(term)
             return True
         if r_t == 'unknown' or r_f == 'unknown':
